@@ -6,6 +6,9 @@ From Coq Require Import ExtrOcamlBasic.
 From Coq Require Import ZArith List.
 From Segno Require Import Base.PyLite Ref.Geometry Ref.MaskCond Ref.Bch.
 From Segno Require Import Ref.Classify.
+From Segno Require Import Model.Bits Model.Segment Model.Version Model.Stream Model.Matrix Model.Encode.
 Cd "build/ocaml".
-Extraction "model.ml" Classify.classify_matrix Classify.kf_fmt_col Classify.align_aux_matrix.
+Extraction "model.ml" Classify.classify_matrix Classify.kf_fmt_col Classify.align_aux_matrix
+  Encode.encode Encode.encode_core Segment.make_segment Segment.find_mode Version.find_version Version.boost_error_level
+  Version.bit_length_with_overhead Stream.make_final_message Matrix.mask_scores Matrix.evaluate_micro_mask.
 Cd "../..".
